@@ -88,12 +88,15 @@ def _mode_cm(name, target_rel):
         o = st.heap[g.oid]
         rel_idx = ctx.w.enum_index("DistanceMode", "RELATIVE")
         ctx.assume(wf, wfM, wf_tool(ctx.w, st.heap, sref), ghost.agree(M0, o["_current_axes"], o["_distance_mode"].idx, rel_idx))
-        flag = VBool(fresh("body_raises", z3.BoolSort()))
+        flag = VBool(fresh("body_raises", z3.BoolSort())); flag2 = VBool(fresh("body_switches_mode", z3.BoolSort()))
+        other, _ = sym_enum("DistanceMode", ctx.w); ctx.assume(other.idx >= 0, other.idx < 2)
         a, _ = sym_num("a", finite=True)
         h0 = st.snap()
-        st.env.update(g=g, flag=flag, a=a)
+        st.env.update(g=g, flag=flag, flag2=flag2, other=other, a=a)
         src = (f"with g.{name}():\n"
                "    g.move(x=a)\n"
+               "    if flag2:\n"
+               "        g.set_distance_mode(other)\n"
                "    if flag:\n"
                "        raise KeyError('body failed')\n")
         ctx.under_contract(f"GCodeCore.{name}")
@@ -113,7 +116,7 @@ def _mode_cm(name, target_rel):
             modes = [g_ for g_, s in blocks if len(s.cmds) == 1 and s.cmds[0].py is None or (len(s.cmds) == 1 and s.cmds[0].py in ("G90", "G91"))]
             n_mode = z3.Sum([ITE(AND(g_, cmd_is(s, "G90", "G91")), z3.IntVal(1), z3.IntVal(0)) for g_, s in blocks]) if blocks else z3.IntVal(0)
             ctx.check(f"C01 mode words are emitted only on change: none if already in the target mode, else exactly two (switch and restore) [{tag}]",
-                      n_mode == ITE(switched, z3.IntVal(2), z3.IntVal(0)), e, None, "post")
+                      IMP(NOT(flag2.t), n_mode == ITE(switched, z3.IntVal(2), z3.IntVal(0))), e, None, "post")
             if e.kind == "return":
                 cur = h0[g.oid]["_current_axes"]
                 c0 = ITE(cur.x.none, z3.RealVal(0), cur.x.inner.val)
